@@ -961,3 +961,11 @@ package gtfs
 //@   ensures result != nil && result.Parent == nil
 //@   loop 1 invariant stop != nil
 //@   loop 1 bounded parent-forest
+
+// openCsvFile: what the table loop of ParseStatic hands to each table action is a well-formed csv file (the
+// precondition the ParseStatic$N closures state), or an error. (*zip.File).Open is an assumed contract.
+//@ func openCsvFile
+//@   props C01 C05
+//@   requires zipFile != nil
+//@   ensures [file-or-error] (result.1 == nil) == (result.0 != nil)
+//@   ensures [opened-file-is-well-formed] result.1 == nil ==> csvOK(result.0) && result.0.currentRow == nil && result.0.rowNumber == 0
